@@ -4,7 +4,7 @@ get_next_tasks / update_task_state, computed from the AST with sa.guards."""
 import ast
 
 from sa.core import AnalysisError, NotFoldable, norm_src, unparse, untag
-from sa.effects import effects_of, local_def, status_set
+from sa.effects import effects_of, expand_alternatives, local_def, status_set
 from sa.guards import (FuncGuards, callee_name, calls_in, fmt_atoms, terminates,
                        textually_before)
 from sa.report import Finding, RuleResult
@@ -133,6 +133,14 @@ def _root_defs(f, name):
     return out
 
 
+_COMPLEMENT = {"is": "isnot", "isnot": "is", "truthy": "falsy", "falsy": "truthy", "in": "notin",
+               "notin": "in", "==": "!=", "!=": "==", "<": ">=", ">=": "<", ">": "<=", "<=": ">"}
+
+
+def _complementary(a, b):
+    return a[1] == b[1] and a[2] == b[2] and _COMPLEMENT.get(a[0]) == b[0]
+
+
 def rule_P1(ctx):
     res = RuleResult("P1", "every offered task comes from a ready, not completed staged entry; "
                            "what the status machine calls 'work left' is what is offered")
@@ -230,16 +238,28 @@ def rule_P1(ctx):
                             yield x
                 else:
                     yield a
+        gate_flat = set(_flat_(list(gate)))
         ok_e = False
         worst = None
         for c, atoms in empties:
-            extra = [a for a in _flat_(atoms) if not (
+            extra = [a for a in _flat_(atoms) if a not in gate_flat and not (
                 "items_count" in str(a[1]) or "actions" in str(a[1])
                 or (a[0] in ("truthy", "falsy") and "has_items" in str(a[1])))]
             if not extra:
                 ok_e = True
             else:
                 worst = (c, extra)
+        if not ok_e:
+            # two alternatives that differ only by complementary conditions cover both cases
+            extras = []
+            for c, atoms in empties:
+                extras.append([a for a in _flat_(atoms) if a not in gate_flat and not (
+                    "items_count" in str(a[1]) or "actions" in str(a[1])
+                    or (a[0] in ("truthy", "falsy") and "has_items" in str(a[1])))])
+            for i_, x in enumerate(extras):
+                for y in extras[i_ + 1:]:
+                    if len(x) == 1 and len(y) == 1 and _complementary(x[0], y[0]):
+                        ok_e = True
         if ok_e:
             res.holds(("empty-items",))
         else:
@@ -290,66 +310,6 @@ def _expand_bool_locals(f, fg, atoms):
     return out
 
 
-def _truth_alternatives(f, fg, name, polarity, depth=0):
-    """Alternative guard lists under which local `name` is truthy (falsy for polarity False):
-    for a local defined once by a test, that test; for a result temporary of the inlining pass
-    (assigned once per lowered `return`, in mutually exclusive branches), one alternative per
-    assignment = the guards of the assignment plus the truth of the assigned expression.
-    None when the local is not of these kinds."""
-    ds = _defs(f, name)
-    inl = all(True for _ in ds) and any(
-        isinstance(t, ast.Name) and t.id.startswith("__ret__")
-        for d in ds for t in d.targets)
-    if not ds or (len(ds) > 1 and not inl) or depth > 3:
-        return None
-    alts = []
-    for d in ds:
-        v = d.value
-        here = list(fg.atoms(d)) if inl else []
-        if isinstance(v, ast.Constant):
-            if bool(v.value) == polarity:
-                alts.append(here)
-            continue
-        if isinstance(v, ast.Name):
-            sub = _truth_alternatives(f, fg, v.id, polarity, depth + 1)
-            if sub is None:
-                alts.append(here + [("truthy" if polarity else "falsy", v.id, None)])
-            else:
-                alts.extend(here + s_ for s_ in sub)
-            continue
-        if isinstance(v, (ast.Compare, ast.BoolOp, ast.UnaryOp, ast.Call)):
-            alts.append(here + list(fg.norm.conj(v, polarity)))
-            continue
-        return None
-    return alts
-
-
-def expand_alternatives(f, fg, atoms):
-    """The guard list `atoms` as a list of alternative guard lists in which truthy / falsy
-    atoms on boolean locals (see _truth_alternatives) are replaced by what they stand for."""
-    alts = [[]]
-    for a in atoms:
-        sub = None
-        if a[0] in ("truthy", "falsy") and isinstance(a[1], str) and a[1].isidentifier():
-            sub = _truth_alternatives(f, fg, a[1], a[0] == "truthy")
-        if sub is None and a[0] == "or":
-            sub = [list(alt) for alt in a[1]]
-        if sub is None:
-            alts = [x + [a] for x in alts]
-        else:
-            alts = [x + list(s_) for x in alts for s_ in sub][:128]
-    # nested alternatives introduced by the substitution
-    if any(a[0] == "or" for alt in alts for a in alt) and len(alts) < 128:
-        out = []
-        for alt in alts:
-            if any(a[0] == "or" for a in alt):
-                out.extend(expand_alternatives(f, fg, alt))
-            else:
-                out.append(alt)
-        alts = out[:128]
-    return alts
-
-
 # ====================================================================== P2
 def rule_P2(ctx):
     _PROG["prog"] = ctx.prog
@@ -377,6 +337,35 @@ def rule_P2(ctx):
                 rem = [x for alt in alts for x in alt if x[0] == "truthy"]
                 if st and len(alts) == 2 and rem:
                     gate = (st[0], rem[0][1])
+        if gate is None and isinstance(lp.iter, ast.Name):
+            # gate by data: the iterated list is, per branch, everything staged (only while
+            # the status is a running status), the run-on-fail entries (only when failed),
+            # or nothing
+            ds = [n_ for n_ in ast.walk(f.node) if isinstance(n_, ast.Assign) and any(
+                isinstance(t_, ast.Name) and t_.id == lp.iter.id for t_ in n_.targets)
+                and not (isinstance(n_.value, ast.Constant) and n_.value.value is None)]
+            bad_def = None
+            kinds = set()
+            for d in ds:
+                v = d.value
+                datoms = _expand_bool_locals(f, fg, fg.atoms(d))
+                if isinstance(v, (ast.List, ast.Tuple)) and not v.elts:
+                    kinds.add("empty")
+                    continue
+                rof = isinstance(v, ast.ListComp) and any(
+                    "run_on_fail" in unparse(c) for g_ in v.generators for c in g_.ifs)
+                if rof and any(a[0] == "==" and a[2] == "failed" for a in datoms) \
+                        and _derives_from_staged(f, v):
+                    kinds.add("remediation")
+                    continue
+                if any(a[0] == "in" and a[2] == running for a in datoms) and \
+                        _derives_from_staged(f, v):
+                    kinds.add("running")
+                    continue
+                bad_def = d
+            if ds and bad_def is None and "running" in kinds:
+                res.holds(inst, "gated by the data: %s" % sorted(kinds))
+                continue
         if gate is None:
             res.violated(inst, _f(
                 "P2", f, lp, "offer loop gate",
@@ -419,9 +408,7 @@ def rule_P2(ctx):
             ok = False
             for fl in flags:
                 for d in local_def(e.func.node, fl):
-                    if isinstance(d, ast.Assign) and isinstance(d.value, ast.Compare) and any(
-                            isinstance(c, ast.Constant) and c.value == "fail"
-                            for c in d.value.comparators):
+                    if isinstance(d, ast.Assign) and _compares_with_fail(d.value):
                         ok = True
             inst = ("run_on_fail", e.func.qualname, norm_src(e.node))
             if ok:
@@ -466,6 +453,47 @@ def e_prog(e):
     return _PROG["prog"]
 
 
+def _compares_with_fail(v):
+    """The expression records whether a transition target is the fail command:
+    x == 'fail', flag or x == 'fail', x in ('fail',) ..."""
+    for c in ast.walk(v):
+        if isinstance(c, ast.Compare) and len(c.ops) == 1 and isinstance(
+                c.ops[0], (ast.Eq, ast.In)):
+            for k in [c.left] + list(c.comparators):
+                if isinstance(k, ast.Constant) and k.value == "fail":
+                    return True
+                if isinstance(k, (ast.List, ast.Tuple, ast.Set)) and any(
+                        isinstance(x, ast.Constant) and x.value == "fail" for x in k.elts):
+                    return True
+    return False
+
+
+def _all_defs_staged(f, name, seen=None):
+    """Every definition of local `name` is the result of add_staged_task / get_staged_task,
+    directly or through copies of locals that are (cycles of copies are ignored)."""
+    seen = seen if seen is not None else set()
+    if name in seen:
+        return True
+    seen.add(name)
+    ds = _defs(f, name)
+    if not ds:
+        return False
+    found = False
+    for d in ds:
+        v = d.value
+        if isinstance(v, ast.Call) and callee_name(v) in ("add_staged_task", "get_staged_task"):
+            found = True
+        elif isinstance(v, ast.Name):
+            if v.id in seen:
+                continue
+            if not _all_defs_staged(f, v.id, seen):
+                return False
+            found = True
+        else:
+            return False
+    return found
+
+
 def _siblings_only(e):
     """The entry whose run_on_fail flag is set is drawn from a local list that only ever receives
     entries staged in this activation (results of add_staged_task / get_staged_task)."""
@@ -480,9 +508,7 @@ def _siblings_only(e):
         loop = getattr(loop, "_parent", None)
     if loop is None:
         # flag set directly on the freshly staged entry
-        ds = _defs(f, var)
-        if ds and all(isinstance(d.value, ast.Call) and callee_name(d.value) in (
-                "add_staged_task", "get_staged_task") for d in ds):
+        if _all_defs_staged(f, var):
             return True, ""
         return False, "entry %s is not one staged by this transition set" % var
     if not isinstance(loop.iter, ast.Name):
@@ -500,8 +526,7 @@ def _siblings_only(e):
     # names that record whether a fail command was seen (assigned from '== "fail"')
     flags = set()
     for n in ast.walk(f.node):
-        if isinstance(n, ast.Assign) and isinstance(n.value, ast.Compare) and any(
-                isinstance(c, ast.Constant) and c.value == "fail" for c in n.value.comparators):
+        if isinstance(n, ast.Assign) and _compares_with_fail(n.value):
             flags |= {t.id for t in n.targets if isinstance(t, ast.Name)}
     fg = FuncGuards(e_prog(e), f)
     for c in apps:
@@ -514,9 +539,7 @@ def _siblings_only(e):
         a = c.args[-1] if c.args else None
         if not isinstance(a, ast.Name):
             return False, "%s receives %s" % (lst, unparse(a) if a is not None else "?")
-        ads = _defs(f, a.id)
-        if not ads or not all(isinstance(d.value, ast.Call) and callee_name(d.value) in (
-                "add_staged_task", "get_staged_task") for d in ads):
+        if not _all_defs_staged(f, a.id):
             return False, "%s receives entries that were not staged here" % lst
     return True, ""
 
@@ -1125,10 +1148,31 @@ def rule_P6(ctx):
                     v = v.args[0]
                 return unparse(v).replace('"', "'") if v is not None else None
             want = {"ctxs": "%s['ctxs']['in']" % rec, "prev": "%s['prev']" % rec}
+
+            def _from_record(v, depth=0):
+                """The value is computed from the execution record (possibly through a
+                copying helper that is handed the record, and through locals)."""
+                if v is None or depth > 4:
+                    return False
+                names = {x.id for x in ast.walk(v) if isinstance(x, ast.Name)}
+                if rec in names:
+                    return True
+                for nm in names:
+                    for d_ in _defs(f, nm):
+                        if _from_record(d_.value, depth + 1):
+                            return True
+                    # tuple-unpacked from a call on the record:  a, b = copy_refs(record)
+                    for st in ast.walk(f.node):
+                        if isinstance(st, ast.Assign) and len(st.targets) == 1 and isinstance(
+                                st.targets[0], ast.Tuple) and any(
+                                isinstance(e_, ast.Name) and e_.id == nm for e_ in st.targets[0].elts):
+                            if _from_record(st.value, depth + 1):
+                                return True
+                return False
             for kname, wtxt in sorted(want.items()):
                 inst = ("restage-" + kname,)
                 got = _strip_copy(kws.get(kname))
-                if got == wtxt:
+                if got == wtxt or (kws.get(kname) is not None and _from_record(kws.get(kname))):
                     res.holds(inst)
                 else:
                     res.violated(inst, _f(
@@ -1161,6 +1205,32 @@ def rule_P6(ctx):
 
 
 # ====================================================================== P7 (join threshold)
+def _resolve_expr(ctx, f, expr, depth=0):
+    """(function, expression) that `expr` stands for: single-assignment locals substituted,
+    and a call of a repository function that consists of straight-line assignments and one
+    return replaced by that function's (substituted) return expression."""
+    from sa.core import subst_locals
+    prog = ctx.prog
+    e = subst_locals(f.node, expr)
+    if depth < 3 and isinstance(e, ast.Call):
+        callees = set()
+        for (caller, nid), cs in ctx.absint.call_edges.items():
+            if caller == f.qualname and ctx.absint.call_nodes[nid][1] is expr:
+                callees |= cs
+        if not callees and isinstance(e.func, ast.Attribute):
+            # calls reached through a substituted copy are resolved by method name
+            cands = [g for g in prog.all_functions(include_dead=True) if g.name == e.func.attr
+                     and g.module.short in ("graphing", "conducting", "machines")]
+            callees = {g.qualname for g in cands} if len(cands) == 1 else set()
+        if len(callees) == 1:
+            h = prog.find_function(next(iter(callees)))
+            if h is not None:
+                rets = [r for r in ast.walk(h.node) if isinstance(r, ast.Return)]
+                if len(rets) == 1 and rets[0].value is not None:
+                    return _resolve_expr(ctx, h, rets[0].value, depth + 1)
+    return f, e
+
+
 def rule_P7(ctx):
     res = RuleResult("P7", "a join is satisfied exactly when the number of distinct inbound "
                            "tasks with a satisfied transition on the same route reaches the "
@@ -1195,16 +1265,34 @@ def rule_P7(ctx):
             if a[0] == ">=" and ".count(True)" in lhs_txt and isinstance(a[2], tuple):
                 req = a[2][1]
                 ds = _defs(f, req)
-                if len(ds) == 1 and isinstance(ds[0].value, ast.IfExp):
-                    ife = ds[0].value
-                    t = unparse(ife.test)
-                    star = "'*'" in t or '"*"' in t
-                    body_all = "len(" in unparse(ife.body)
-                    bname = unparse(ife.orelse)
-                    bds = _defs(f, bname) if isinstance(ife.orelse, ast.Name) else []
-                    from_graph = bool(bds) and "get_barrier" in unparse(bds[-1].value)
-                    if star and body_all and from_graph:
-                        ok = True
+                if len(ds) == 1:
+                    hf, ife = _resolve_expr(ctx, f, ds[0].value)
+                    if isinstance(ife, ast.IfExp):
+                        star = False
+                        for cmp_ in ast.walk(ife.test):
+                            if isinstance(cmp_, ast.Compare) and len(cmp_.ops) == 1 and isinstance(
+                                    cmp_.ops[0], ast.Eq):
+                                for side in (cmp_.left, cmp_.comparators[0]):
+                                    try:
+                                        if prog.fold(side, hf.module) == "*":
+                                            star = True
+                                    except NotFoldable:
+                                        pass
+                        body_all = "len(" in unparse(ife.body)
+                        def _is_barrier(v):
+                            if isinstance(v, ast.BoolOp) and isinstance(v.op, ast.Or) and len(
+                                    v.values) == 2 and isinstance(v.values[1], ast.Constant) \
+                                    and v.values[1].value == 1:
+                                v = v.values[0]
+                            return isinstance(v, ast.Call) and callee_name(v) == "get_barrier"
+                        from_graph = _is_barrier(ife.orelse) and any(
+                            _is_barrier(x) for c_ in ast.walk(ife.test)
+                            if isinstance(c_, ast.Compare) for x in [c_.left] + c_.comparators)
+                        if star and body_all and from_graph:
+                            ok = True
+                        else:
+                            why = "requirement is not 'all inbound tasks if barrier == * else " \
+                                  "the barrier of the graph node'"
                     else:
                         why = "requirement is not 'all inbound tasks if barrier == * else the " \
                               "barrier of the graph node'"
@@ -1244,7 +1332,7 @@ def rule_P7(ctx):
                                   "get_inbound_criteria_status never reports work-in-progress"))
     # distinct inbound tasks on the same route
     dc = [n for n in ast.walk(f.node) if isinstance(n, ast.DictComp)]
-    distinct = any("set(" in unparse(n.generators[0].iter) for n in dc)
+    distinct = any("set(" in unparse(_resolve_expr(ctx, f, n.generators[0].iter)[1]) for n in dc)
     (res.holds if distinct else lambda i: res.violated(i, _f(
         "P7", f, f.node, "inbound evaluation keys",
         "inbound evaluation is not keyed by the set of distinct inbound tasks")))(("distinct",))
@@ -1281,7 +1369,11 @@ def rule_P7(ctx):
             ds = _defs(comp, val.id)
             if ds and isinstance(ds[-1].value, ast.IfExp):
                 i = ds[-1].value
-                okv = isinstance(i.body, ast.Constant) and i.body.value == "*" and \
+                try:
+                    star_v = prog.fold(i.body, comp.module) == "*"
+                except NotFoldable:
+                    star_v = False
+                okv = star_v and \
                     "'all'" in unparse(i.test).replace('"', "'") and "join" in unparse(i.orelse)
         if guarded and okv:
             res.holds(inst)
@@ -1322,9 +1414,16 @@ def _window_sites(prog):
                     s.targets[0], ast.Name)):
                 continue
             for v in ast.walk(s.value):
-                if isinstance(v, ast.BinOp) and isinstance(v.op, ast.Sub) and isinstance(
-                        v.right, ast.Call) and callee_name(v.right) == "len" and \
-                        "concurrency" in unparse(v.left):
+                if not (isinstance(v, ast.BinOp) and isinstance(v.op, ast.Sub)
+                        and "concurrency" in unparse(v.left)):
+                    continue
+                r = v.right
+                is_len = isinstance(r, ast.Call) and callee_name(r) == "len"
+                if isinstance(r, ast.Name):
+                    ds = _defs(f, r.id)
+                    is_len = bool(ds) and all(isinstance(d.value, ast.Call) and callee_name(
+                        d.value) == "len" for d in ds)
+                if is_len:
                     out.append((f, s, v, s.targets[0].id))
                     break
     return out
@@ -1405,13 +1504,25 @@ def rule_P8(ctx):
                 % bad))
         # offers only while the window is open, and at most `avail` of them
         fg = FuncGuards(prog, f)
-        par = getattr(stmt, "_parent", None)
         later = []
-        for fld in ("body", "orelse", "finalbody"):
-            lst = getattr(par, fld, None)
-            if isinstance(lst, list) and stmt in lst:
-                later = lst[lst.index(stmt) + 1:]
+        cur_ = stmt
+        while cur_ is not None and cur_ is not f.node and not isinstance(cur_, (ast.For, ast.While)):
+            par = getattr(cur_, "_parent", None)
+            for fld in ("body", "orelse", "finalbody"):
+                lst = getattr(par, fld, None)
+                if isinstance(lst, list) and cur_ in lst:
+                    later.extend(lst[lst.index(cur_) + 1:])
+            cur_ = par
+            if isinstance(cur_, ast.Try):
+                break
         blk = ast.Module(body=later, type_ignores=[])
+        # the window value may be handed on through copies (result temporaries)
+        aliases = {avail}
+        for _ in range(3):
+            for n_ in ast.walk(blk):
+                if isinstance(n_, ast.Assign) and isinstance(n_.value, ast.Name) and \
+                        n_.value.id in aliases:
+                    aliases |= {t_.id for t_ in n_.targets if isinstance(t_, ast.Name)}
         offers = []
         for n in ast.walk(blk):
             if isinstance(n, ast.Assign) and any(
@@ -1435,8 +1546,8 @@ def rule_P8(ctx):
                 atoms = fg.atoms(body)
                 clamped = isinstance(stmt.value, ast.Call) and callee_name(stmt.value) == "max" \
                     and any(isinstance(a_, ast.Constant) and a_.value == 0 for a_ in stmt.value.args)
-                if not clamped and not any((a[0] == ">" and a[1] == avail and a[2] == 0)
-                                           or (a[0] == ">=" and a[1] == avail and a[2] == 1)
+                if not clamped and not any((a[0] == ">" and a[1] in aliases and a[2] == 0)
+                                           or (a[0] == ">=" and a[1] in aliases and a[2] == 1)
                                            for a in atoms):
                     problems.append("actions are offered without requiring %s > 0 (%s)" % (
                         avail_disp, norm_src(n)))
@@ -1469,7 +1580,7 @@ def rule_P8(ctx):
                                 "offered again and a reset one skipped" % norm_src(n))
         sliced = any(isinstance(n, ast.Subscript) and isinstance(n.slice, ast.Slice)
                      and n.slice.lower is None and isinstance(n.slice.upper, ast.Name)
-                     and n.slice.upper.id == avail and n.slice.step is None
+                     and n.slice.upper.id in aliases and n.slice.step is None
                      for n in ast.walk(blk))
         if not sliced:
             problems.append("the not-run items are not cut to the first %s" % avail_disp)
